@@ -120,7 +120,7 @@ namespace
                 case 10:
                 {
                     if (op.a < 0 || (std::size_t)op.a >= n.ins.size()) { break; }
-                    if (n.ins[(std::size_t)op.a].role != 0) { break; }   // list slots keep their declared activity
+                    if (n.ins[(std::size_t)op.a].role == 2) { break; }   // a list slot is addressed through its first entry
                     auto root   = view.input(now);
                     auto bundle = root.as_bundle();
                     auto in     = bundle[n.ins[(std::size_t)op.a].slot];
